@@ -23,7 +23,8 @@ PROBES = ("probe_xcp",)
 
 SCHEDS = [{"sched": "free"}, {"sched": "pct", "sched_d": 2}, {"sched": "role", "role_order": "walker,dispatcher,copy,worker,main"},
           {"sched": "role", "role_order": "worker,dispatcher,walker,copy,main"}, {"sched": "role", "role_order": "worker,walker,dispatcher,copy,main"},
-          {"sched": "jitter", "jitter": [300, 1500]}, {"sched": "lifo"}]
+          {"sched": "jitter", "jitter": [300, 1500]}, {"sched": "lifo"},
+          {"sched": "role", "role_order": "main,copy,dispatcher,walker,worker"}, {"sched": "role", "role_order": "main,copy,dispatcher,walker,worker"}]
 
 
 def gen_cases(tier, seed):
@@ -38,13 +39,18 @@ def gen_cases(tier, seed):
                                                         sizes=[0, 1, 4096, 10000, 70000, 300000])
         if r.random() < 0.4:
             spec.append({"p": "src/sparse", "k": "f", "size": 3 << 20, "seed": r.randrange(1, 1 << 30), "segs": [[0, 5000], [2 << 20, 9000]], "sync": True})
-        pol = r.choice(["none", "none", "cfr-short", "uspace", "fault"])
+        pol = r.choice(["none", "none", "cfr-short", "uspace", "fault", "cfr-eof"])
+        if pol == "cfr-eof" and driver == "parfile":
+            pol = "cfr-short"   # the cursor-based loop is only defined for sources that do not shrink
         rules = []
         if pol == "cfr-short":
             rules.append({"id": "s", "sys": "copy_file_range", "under": "@ROOT@", "action": "short", "len": r.choice(["half", "rand", "cap:3000", "minus1"])})
         elif pol == "uspace":
             rules.append({"id": "r", "sys": "copy_file_range", "under": "@ROOT@", "action": "fault", "errno": 38, "from": r.choice([1, 2])})
             rules.append({"id": "s", "sys": "read" if driver == "parfile" else "pread64", "under": "@ROOT@", "action": "short", "len": r.choice(["half", "rand", "cap:3000"])})
+        elif pol == "cfr-eof":
+            # the source 'shrinks': one copy_file_range call reports end-of-file (returns 0) although bytes were requested
+            rules.append({"id": "z", "sys": "copy_file_range", "under": "@ROOT@", "action": "retval", "val": 0, "nth": r.randint(1, 6)})
         elif pol == "fault":
             rules.append({"id": "f", "sys": r.choice(["copy_file_range", "openat", "ftruncate", "fchmod", "mkdir"]), "under": "@ROOT@/dst", "nth": r.randint(1, 5),
                           "action": "fault", "errno": r.choice([5, 28])})
@@ -93,8 +99,9 @@ def run_case(case):
         total = sum(m["rec"]["size"] for m in files)
         incomplete = bool(model.check_mirror(pre, post, mapping))
         got_error = any(j["t"] == "error" for j in stream)
-        # (5) incomplete destination => Error update or Err
-        if incomplete and result["ok"] and not got_error:
+        shrunk = case["policy"] == "cfr-eof" and run.rule("z")["applied"] > 0
+        # (5) incomplete destination => Error update or Err (not judged when the source was made to end early)
+        if incomplete and result["ok"] and not got_error and not shrunk:
             res["viol"].append({"sig": sig0 + ":incomplete-without-error", "what": "destination incomplete but copy() returned Ok and no Error update was delivered; %s; %s"
                                 % (model.check_mirror(pre, post, mapping)[0][1], tag)})
         # (4) stream ends
@@ -103,7 +110,7 @@ def run_case(case):
         if case["updater"] != "noop":
             ssum = sum(j["v"] for j in stream if j["t"] == "size")
             # (1)
-            if result["ok"] and not got_error and ssum != total:
+            if result["ok"] and not got_error and not shrunk and ssum != total:
                 res["viol"].append({"sig": sig0 + ":size-sum", "what": "sum of Size updates %d != total length of selected regular files %d; %s" % (ssum, total, tag)})
             # (2) prefix: copied <= announced
             s = c = 0
